@@ -62,8 +62,8 @@ theorem fieldValue_not_bare (v : VExpr) (ops : FieldOps) (h : v.isBareRoot = fal
   · exact foldl_applyOp_not_bare _ _ h
   · exact h
 
-theorem wildBase_not_bare (v : VExpr) (f : FieldName) :
-    (VExpr.ofCore (wildBase v f)).isBareRoot = false := by
+theorem wildBase_not_bare (v : VExpr) (rsp : Sp) (f : FieldName) :
+    (VExpr.ofCore (wildBase v rsp f)).isBareRoot = false := by
   cases f <;> simp [wildBase, VExpr.ofCore, VExpr.isBareRoot]
 
 mutual
@@ -151,7 +151,7 @@ theorem expandWildFields_not_consumes (v : VExpr) : ∀ (items : Items),
       simp only
       split
       · split
-        · exact expandPat_not_consumes _ (foldl_applyOp_not_bare _ _ (wildBase_not_bare v _)) p
+        · exact expandPat_not_consumes _ (foldl_applyOp_not_bare _ _ (wildBase_not_bare v _ _)) p
         · exact expandPat_not_consumes _ (by simp [VExpr.isBareRoot]) p
       · simp [Code.consumesRoot]
 
